@@ -25,10 +25,10 @@ class Spec:
                          "mwrite": 4, "mremove": 3}}
         # second family: tiny projects, small alphabet (command / edit / .do edit that changes the declared
         # dependencies / remove a produced file / toggle a failure): "stopped declaring X, X edited later" shapes
-        t = {"min_targets": 2, "max_targets": 3, "max_sources": 3, "max_dirs": 0, "p_csum": 20, "p_always": 0,
+        t = {"min_targets": 2, "max_targets": 3, "max_sources": 3, "max_dirs": 0, "p_csum": 45, "p_stampif": 60, "p_always": 0,
              "p_ifc": 0, "p_failflag": 30, "p_default": 0, "min_ops": 10, "max_ops": 20, "max_cmd_targets": 1,
              "p_focus": 60, "edit_variants": 2,
-             "weights": {"cmd": 45, "edit": 25, "setdo": 14, "rmtarget": 8, "failflag": 8, "dropdep": 10, "touch": 0, "adddo": 0,
+             "weights": {"cmd": 45, "edit": 25, "setdo": 14, "rmtarget": 8, "failflag": 8, "dropdep": 10, "stampflag": 8, "touch": 0, "adddo": 0,
                          "rmdo": 0, "mkpath": 0, "rmpath": 0, "ext": 0, "redo": 2, "crash": 2, "mwrite": 0,
                          "mremove": 0}}
         if tier == "thorough":
